@@ -41,8 +41,9 @@ def run_action_open(cfg: OpenActionConfig) -> int:
         # any ZID that is NOT the primary ZID to be targetable. In *.zoq files,
         # every ZID is targetable.
         zid_word = word.strip("[]")
+        is_bare_zid = zdt.is_zid(word)
         is_targetable_zid = zdt.is_zid(zid_word) and (
-            found_primary_zid or is_zoq_file or i == 0
+            found_primary_zid or is_zoq_file or i == 0 or not is_bare_zid
         )
         is_id_link = word.find("[#") >= 0 and word.find("]") >= 0
         is_rid_link = word.find("[@") >= 0 and word.find("]") >= 0
@@ -57,14 +58,20 @@ def run_action_open(cfg: OpenActionConfig) -> int:
             or is_cite_key_link
         ):
             all_targets_in_line.append(word)
+            # A link can only be part of the note's body.
+            found_primary_zid = True
         elif is_targetable_zid:
             all_targets_in_line.append(zid_word)
+            found_primary_zid = True
+        elif is_bare_zid:
+            # The first bare ZID before the note's body is its primary ZID.
+            # Every ZID that comes after it is a target.
+            found_primary_zid = True
         elif (
             not found_primary_zid
             and not _is_prefix_symbol(word)
             and not _is_priority(word)
             and not zdt.is_short_date_spec(word)
-            and not zdt.is_zid(word)
         ):
             found_primary_zid = True
 
